@@ -3,11 +3,14 @@ package service
 import (
 	"bytes"
 	"fmt"
+	"io"
+	stdlog "log"
 	"os"
 	"regexp"
 	"strings"
 	"sync"
 
+	"github.com/go-chi/chi/v5/middleware"
 	"github.com/spf13/afero"
 	"github.com/spf13/viper"
 
@@ -22,6 +25,12 @@ import (
 // (HTTPEnabled set, the HTTPReadOnly line removed / set), and the file is parsed exactly as
 // `rolling-shutter shutterservicekeyper --config file` does (command.Build -> ParseCLI: defaults from
 // SetDefaultValues, then the file).
+
+func init() {
+	// kprapi's router uses chi's request logger, which writes one line per request to the stdout it
+	// captured at start-up: keep the verdict output readable
+	middleware.DefaultLogger = middleware.RequestLogger(&middleware.DefaultLogFormatter{Logger: stdlog.New(io.Discard, "", 0), NoColor: true})
+}
 
 var (
 	cfgMu    sync.Mutex
